@@ -27,6 +27,15 @@ HISTORIES = {
     "deep_if": ("e.c", "#if " + "(" * 40 + "1" + ")" * 40 + "\n# define A 1\n#endif\n"),
     "header_file": ("f.h", "#ifndef F_H\n# define F_H\n\nint\tfoo(void);\n\n#endif\n"),
     "crashing": ("g.c", "typedef;\n"),
+    # files that end in an OPEN state (raw = no 42 header is put in front)
+    "header_only": ("i.c", None),
+    "header_only_h": ("i.h", None),
+    "unclosed_function": ("j.c", "int\tmain(void)\n{\n\tif (1)\n\t{\n\t\treturn (0);\n"),
+    "unclosed_if": ("k.c", "#ifdef A\n# define B 1\n"),
+    "unclosed_struct": ("l.h", "#ifndef L_H\n# define L_H\n\ntypedef struct s_a\n{\n\tint\ta;\n"),
+    "unclosed_comment": ("m.c", "int\tmain(void)\n{\n\treturn (0);\n}\n/* open"),
+    "defines_guard_names": ("n.c", "#define Q_H 1\n#define NO_H 1\n#define A 1\n"),
+    "comment_in_args": ("o.h", "#ifndef O_H\n# define O_H\n\nint\tfoo(int /* n */ a);\n\n#endif\n"),
     "globals_protos": ("h.c", "static int\tg_a = 1;\nstatic char\t*g_b;\n\nint\t\tfoo(int a);\nint\t\tbar(void);\n"),
 }
 PROBES = {
@@ -35,6 +44,14 @@ PROBES = {
     "decls": ("r.c", "int\tfn(int a)\n{\n\tint\t\tx;\n\tchar\t*y;\n\n\tx = a;\n\ty = 0;\n\treturn (x);\n}\n"),
     "deep_if": ("s.c", "#if " + "(" * 60 + "1" + ")" * 60 + "\n# define A 1\n#endif\n"),
     "errors": ("t.c", "int main()\n{\n\tint a = 1;\n\treturn a;\n}\n"),
+    # probes that are sensitive to one piece of leaked state each
+    "bad_header": ("v.c", "@NOHEADER@/* ************************************************************************** */\n/*                                                                            */\n"
+                          "/*   v.c                                                :+:      :+:    :+:   */\n/* ************************************************************************** */\n\n"
+                          "int\tmain(void)\n{\n\treturn (0);\n}\n"),
+    "no_header": ("w.c", "@NOHEADER@int\tmain(void)\n{\n\treturn (0);\n}\n"),
+    "guard_without_define": ("no.h", "#ifndef NO_H\n\nint\tfoo(void);\n\n#endif\n"),
+    "ifdef_of_other_files_macro": ("x.c", "#ifdef A\n# define B 2\n#else\n# define B 3\n#endif\n\nint\tmain(void)\n{\n\treturn (B);\n}\n"),
+    "comment_between_type_and_name": ("y.c", "int\tfn(int /* n */ a, char * /* s */ b)\n{\n\treturn (a + b[0]);\n}\n"),
     "six_funcs": ("u.c", "\n".join("int\tf%d(void)\n{\n\treturn (%d);\n}\n" % (i, i) for i in range(6))),
 }
 
@@ -44,7 +61,12 @@ def chunks(tier):
 
 
 def _with_header(name, body):
-    return "".join(l.default_text() + "\n" for l in F.header_lines(name)) + "\n" + body
+    hdr = "".join(l.default_text() + "\n" for l in F.header_lines(name))
+    if body is None:                       # the 42 header and nothing else
+        return hdr
+    if body.startswith("@NOHEADER@"):      # the text as given (its own, possibly malformed, header or none)
+        return body[len("@NOHEADER@"):]
+    return hdr + "\n" + body
 
 
 def run_seq(seq):
